@@ -229,6 +229,8 @@ def subscribe (x : Index) (client : Str) (s : Sub) : Index × Bool :=
 def unsubscribe (x : Index) (filter client : Str) : Index × Bool :=
   let ls := splitLevels filter
   let share := isShare (isolate ls 0).1
+  -- "$share" or "$share/group": no topic filter follows, nothing can be subscribed under it
+  if share && !(isolate ls 1).2 then (x, false) else
   let p := pathFrom ls (if share then 2 else 0)
   match seek x.nodes p with
   | none => (x, false)
